@@ -70,9 +70,31 @@ func Call(f func(), timeout time.Duration) Future {
 	fu.fireT = time.Now().Add(timeout)
 	fu.idx = -1
 	if f != nil {
+		fu.f = func() { cc.run(f) }
 		cc.add(fu)
 	}
 	return fu
+}
+
+// run calls f on a worker's goroutine. A callback that ends the goroutine it runs on (runtime.Goexit(), e.g. by
+// t.FailNow() in a test) takes the worker with it: the worker is written off then, and another one is started
+// if there are pending futures and nobody else to serve them.
+func (cc *callControl) run(f func()) {
+	returned := false
+	defer func() {
+		if returned {
+			return
+		}
+		cc.lock.Lock()
+		cc.watchers--
+		if cc.watchers == 0 && cc.futures.Len() > 0 {
+			cc.watchers++
+			go cc.watcher()
+		}
+		cc.lock.Unlock()
+	}()
+	f()
+	returned = true
 }
 
 // Cancel cancels the future execution if not called yet
